@@ -193,6 +193,7 @@ func TestC26(t *testing.T) {
 		persist := rapid.IntRange(0, 3).Draw(rt, "persist") == 0
 		order := rapid.Permutation(c26Iota(nRcpt)).Draw(rt, "mergeOrder")
 		foreignMerge := rapid.SliceOfN(rapid.Bool(), nRcpt, nRcpt).Draw(rt, "foreignMerge")
+		reloadBetween := rapid.SliceOfN(rapid.Bool(), nRcpt, nRcpt).Draw(rt, "reloadBetween")
 
 		labels := []string{fmt.Sprintf("receipts:%d", nRcpt)}
 		hasNil, hasEmpty := false, false
@@ -276,13 +277,22 @@ func TestC26(t *testing.T) {
 		}
 
 		// block bloom: merge in drawn order
+		// (an aggregate that is stored and loaded again between merges - drawn - goes on as the restored object)
 		block := txresult.NewLogsBloom(nil)
-		for _, i := range order {
+		reloads := 0
+		for k, i := range order {
 			if foreignMerge[i] {
 				block.Merge(c26Foreign{append([]byte{}, blooms[i].Bytes()...)})
 			} else {
 				block.Merge(blooms[i])
 			}
+			if k < len(order)-1 && reloadBetween[k] {
+				block = txresult.NewLogsBloomFromCompressed(append([]byte{}, block.CompressedBytes()...))
+				reloads++
+			}
+		}
+		if reloads > 0 {
+			rec.Label("aggregateRestoredFromCompressedBetweenMerges")
 		}
 		block.Merge(nil) // transition code may hand over nil
 
